@@ -10,6 +10,7 @@ package elastic
 // given URL, body closed; success only if the body decoded to a JSON object (a nil map is refused)
 //@ func (*elasticClient).Get
 //@   sig c, ctx, url
+//@   locals cancel: context.CancelFunc ;; req: *net/http.Request ;; resp: *net/http.Response ;; decoder: *encoding/json.Decoder
 //@   props C10 C08 C01 C02 C14
 //@   observe context.WithTimeout, http.NewRequestWithContext, Do, Close, json.NewDecoder, Decode, cancel
 //@   entry row reqfail: [call context.WithTimeout(ctx, c.dataTimeout) as (c2, cf) ; call http.NewRequestWithContext(c2, "GET", url, _) as (rq, e) ; call cancel()]
@@ -42,6 +43,7 @@ package elastic
 // suppress nor falsify the record; host = target address:port; proto = the scanner's
 //@ func (*Scanner).Scan
 //@   sig s, ctx, r
+//@   locals host: string ;; info: map[string]interface{} ;; indexes: map[string]interface{}
 //@   props C10 C08 C01 C02 C14
 //@   observe String, fmt.Sprintf, GetInfo, GetIndexes
 //@   entry row noinfo: [call String(r.DstIP) as (ips) ; call fmt.Sprintf("%s:%d", bind_a) as (host) ; call GetInfo(s.elastic, ctx, host) as (info, e)]
@@ -61,6 +63,7 @@ package elastic
 //@   ensures s.elastic.dataTimeout == timeout
 //@ func NewScanner
 //@   sig proto, opts
+//@   locals tr: *net/http.Transport ;; ec: *elasticClient ;; s: *Scanner ;; o: ScannerOption
 //@   props C02 C10 C08 C01 C14
 //@   observe ScannerOption
 //@   entry row init:  [] when s.proto == proto && s.elastic.proto == proto && s.elastic.client.Timeout == 0 && isptr(s.elastic.client.Transport, http.Transport) && fresh(asptr(s.elastic.client.Transport, http.Transport))
